@@ -139,11 +139,23 @@ func dedupLoop(configArgs map[string]string, w *fsnotify.Watcher, completedChann
 			}
 
 			log.Error().Err(err).Msg("")
-		case _, ok := <-w.Events:
+		case event, ok := <-w.Events:
 			if !ok {
 				// channel was closed
 				completedChannel <- nil
 				return
+			}
+
+			// A directory that appears inside a watched directory is watched right away, together
+			// with what is below it: the regeneration that registers subdirectories may already have
+			// read the package, and a model file saved in the new directory before that regeneration
+			// has finished would otherwise never be noticed.
+			if event.Op&fsnotify.Create != 0 && !strings.HasPrefix(filepath.Base(event.Name), ".") {
+				if info, err := os.Stat(event.Name); err == nil && info.IsDir() {
+					if err := w.Add(event.Name); err == nil {
+						watchSubdirectories(w, event.Name)
+					}
+				}
 			}
 
 			verifhook.Event("timer.reset")
